@@ -325,6 +325,9 @@ class Engine:
         if isinstance(f, ast.Attribute) and (parts is None or (parts[0] in st.env)):
             recv = fv.ev(f.value, st, prog)
             return X.method(self, fv, st, recv, f.attr, node, prog)
+        if parts is not None and len(parts) == 1 and parts[0] in st.funcs:
+            args = [fv.as_int(fv.ev(a, st, False)).e for a in node.args]
+            return SInt(st.funcs[parts[0]](*args))
         kind, obj = self.resolve_call(fv, node)
         if kind == "builtin":
             return X.BUILTINS[obj](self, fv, st, node, prog)
